@@ -290,11 +290,17 @@ func (d *cnDriver) genProofs(h int64, nonceBump map[string]uint64) []cnTxMeta {
 			fmt.Fprintln(os.Stderr, "vrfprove build:", node, err)
 		}
 	}
+	// every fifth epoch or so is a lazy one: most nodes - whichever, the always-eligible validator included - do not prove, so that
+	// the proofs on record may all come from nodes that are not eligible validators (frozen, lapsed, under-staked)
+	lazy := hash.NewFromBytes([]byte(fmt.Sprintf("lazy|%d|%d", n.cfg.Seed, d.vrf.epoch)))[0]%5 == 0
 	for i, v := range n.vals {
 		if d.vrf.have[v.name] && d.rng.Intn(10) != 0 {
 			continue // (now and then a node proves twice: same proof, accepted without effect)
 		}
 		early := h <= d.vrf.submitAfter
+		if lazy && d.rng.Intn(10) < 7 {
+			continue
+		}
 		switch x := d.rng.Intn(20); {
 		case early && x > 1:
 			continue
